@@ -28,6 +28,13 @@
  *          for every representable output value v: v-1, v, v+1, the midpoint
  *          to the next v, 2^64-1, and a dense range 0..N.
  *
+ * --deep (given by ./check to the thorough tier only; bounds beyond thorough):
+ *  int     the alphabet gains 'X' and 'F' (15 symbols: upper-case hex prefix
+ *          and digit), length 0..6 as in thorough;  float  length 0..7 (the first length with a
+ *          complete hex float "0x1.8p1");  human  humansize_parse strings of
+ *          length 0..8, humansize() on every size 0..30 000 000;  intgen as is.
+ *          Explicit --len/--flen/--hlen/--dense still override.
+ *
  * Oracle: engine/ref/ref_numeral.h — the numeral grammars written from the
  * C standard, values exact in unsigned __int128 / big integers; success iff
  * well formed and the mathematical value is inside the bounds and the type,
@@ -308,8 +315,10 @@ int_string(const char * s, const int * bases, int nbases)
 	}
 }
 
-static const char IALPHA[] = " \t+-0179afxz.";
-#define NIALPHA 13
+static const char IALPHA_STD[] = " \t+-0179afxz.";
+static const char IALPHA_DEEP[] = " \t+-0179afxz.XF";	/* --deep: the same 13 symbols in the same order, then 'X' and 'F' */
+static const char * IALPHA = IALPHA_STD;
+static int NIALPHA = 13;
 static const int IBASES[] = { 0, 2, 8, 10, 16, 36 };
 #define NIBASES 6
 static int int_len = 4, int_pre = 2;
@@ -1120,15 +1129,28 @@ main(int argc, char ** argv)
 {
 	const char * part = "all";
 	uint64_t n;
-	int i;
+	int i, deep = 0;
 
 	vf_init(&argc, argv, "h_parsenum");
 	int_len = vf_tier ? 6 : 5;
 	flt_len = vf_tier ? 6 : 5;
 	hs_len = vf_tier ? 7 : 5;
 	hs_dense = vf_tier ? 3000000 : 200000;
+	for (i = 1; i < argc; i++)
+		if (!strcmp(argv[i], "--deep")) {
+			/* beyond thorough; a replay needs no flag (every record carries its string) */
+			deep = 1;
+			IALPHA = IALPHA_DEEP;
+			NIALPHA = 15;
+			int_len = 6;
+			flt_len = 7;
+			hs_len = 8;
+			hs_dense = 30000000;
+		}
 	for (i = 1; i < argc; i++) {
-		if (!strcmp(argv[i], "--part") && i + 1 < argc)
+		if (!strcmp(argv[i], "--deep"))
+			continue;
+		else if (!strcmp(argv[i], "--part") && i + 1 < argc)
 			part = argv[++i];
 		else if (!strcmp(argv[i], "--len") && i + 1 < argc)
 			int_len = atoi(argv[++i]);
@@ -1152,8 +1174,8 @@ main(int argc, char ** argv)
 		int_pre = int_len < 3 ? int_len : 3;
 		n = 1 + ipow(NIALPHA, int_pre);
 		vf_count("int.exhaustive", 0);
-		vf_info("int.bounds", "all strings over {SP TAB + - 0 1 7 9 a f x z .} of length 0..%d x base {0,2,8,10,16,36} x trailing {0,1} "
-		    "x 6 unsigned types x 8 bounds forms + 5 signed types x 7 bounds forms (+ PARSENUM spellings at base 0)", int_len);
+		vf_info("int.bounds", "all strings over {SP TAB + - 0 1 7 9 a f x z .%s} of length 0..%d x base {0,2,8,10,16,36} x trailing {0,1} "
+		    "x 6 unsigned types x 8 bounds forms + 5 signed types x 7 bounds forms (+ PARSENUM spellings at base 0)", deep ? " X F" : "", int_len);
 		vf_parallel(n, int_unit);
 		if (!vf_deadline_hit() && vf_getcount("int.units_done") == n)
 			vf_setmax("int.exhaustive", 1);
